@@ -10,7 +10,9 @@ pub mod c10_history;
 pub mod c11_saveload;
 pub mod c23_bloom;
 pub mod c28_rollback;
+pub mod c30_objids;
 pub mod c38_actorseq;
+pub mod c40_migrate;
 
 pub fn registry() -> Vec<Box<dyn Check>> {
     vec![
@@ -25,6 +27,8 @@ pub fn registry() -> Vec<Box<dyn Check>> {
         Box::new(c11_saveload::C12),
         Box::new(c23_bloom::C23),
         Box::new(c28_rollback::C28),
+        Box::new(c30_objids::C30),
         Box::new(c38_actorseq::C38),
+        Box::new(c40_migrate::C40),
     ]
 }
